@@ -61,13 +61,14 @@ func genAolListHistory(r *RNG, nBlocks int) []string {
 			writersOf[k] = append(writersOf[k], w)
 		}
 	}
-	for o, n := range perOwner {
-		add("G aol.owner %s %d", toks(o), n)
+	for _, o := range sortedKeys(perOwner) {
+		add("G aol.owner %s %d", toks(o), perOwner[o])
 	}
 	for _, k := range order {
 		add("G aol.topic %s %s 0 %d", toks(k.o+"/"+k.t), toks("d"), len(writersOf[k]))
-		for _, w := range writersOf[k] {
-			add("G aol.writer %s %s %s %d", toks(k.o+"/"+k.t+"/"+w), toks("m"), toks(""), 1700000000_000000000)
+		for j, w := range writersOf[k] {
+			// distinct values per writer: an import that confuses writers cannot hide behind identical entries
+			add("G aol.writer %s %s %s %d", toks(k.o+"/"+k.t+"/"+w), toks(fmt.Sprintf("m%d", j)), toks(fmt.Sprintf("d%d", j)), 1700000000_000000000+int64(j))
 		}
 	}
 	now := int64(1700000100_000000000)
